@@ -95,9 +95,9 @@ def rand_writes(rng, n, faulty):
         elif k < 0.8:
             ws.append({"max": rng.choice([0, 1, 2, 7, 100]), "err": False})
         elif k < 0.9:
-            ws.append({"max": rng.choice([0, 1, 5, BUF]), "err": True})
+            ws.append({"max": rng.choice([0, 1, 5, BUF]), "err": True, "ek": rng.choice([0, 1, 1, 4, 5])})   # 1 = transient write timeout
         else:
-            ws.append({"max": BUF, "err": True})
+            ws.append({"max": BUF, "err": True, "ek": rng.choice([0, 1, 1, 4])})
     return ws
 
 
@@ -214,6 +214,8 @@ def gen_end_failure(rng, n):
                 c["r1" if which == 0 else "r0"] = [dict(rand_data(rng, 7), e=0)]
         else:
             fail = data + ([{"d": "", "e": 1}] if k % 2 else []) + [{"d": "", "e": e}]     # sometimes a retryable timeout first
+            if k % 5 in (1, 2):            # the last bytes come TOGETHER with the end of the stream / the failure: Read returns (n > 0, err)
+                fail = data + [dict(rand_data(rng, rng.choice([1, 7, 300])), e=e)]
             w = (k // 2) % 4
             c = {"mode": "free", "limit": 0, "wrap0": bool(w & 1), "wrap1": bool(w & 2), "w0": [], "w1": [],
                  "r0": fail if which == 0 else [], "r1": fail if which == 1 else [], "end0": "hold", "end1": "hold", "sched": []}
@@ -230,6 +232,19 @@ def gen_parent_cancel(rng, n):
              "wrap0": False, "wrap1": False, "w0": [], "w1": [], "end0": "hold", "end1": "hold", "sched": [],
              "r0": [dict(rand_data(rng, rng.choice([1, 9, 300])), e=0) for _ in range(rng.randrange(0, 3))],
              "r1": [dict(rand_data(rng, rng.choice([1, 9, 300])), e=0) for _ in range(rng.randrange(0, 3))]}
+        out.append(c)
+    return out
+
+
+def gen_cancel_in_wait(rng, n):
+    """a direction holds a chunk larger than the burst and is waiting for tokens (several seconds of pacing left) when the other
+    end closes: the wait must be aborted — Start returns at once, not after the pacing of the chunk"""
+    out = []
+    for k in range(n):
+        chunk = [dict(rand_data(rng, rng.choice([8192, 12000])), e=0)]
+        c = {"mode": "free", "limit": 1024, "return_ms": 1500, "w0": [], "w1": [], "sched": [], "wrap0": False, "wrap1": False,
+             "r0": chunk if k % 2 == 0 else [], "r1": chunk if k % 2 else [],
+             "end0": "hold" if k % 2 == 0 else "eof", "end1": "eof" if k % 2 == 0 else "hold"}
         out.append(c)
     return out
 
@@ -454,6 +469,7 @@ def run(ctx, only_cases=None):
         cases += gen_end_failure(rng, 112 if thorough else 28)
         cases += gen_reqresp(rng, 32 if thorough else 8)
         cases += gen_parent_cancel(rng, 40 if thorough else 10)
+        cases += gen_cancel_in_wait(rng, 8 if thorough else 2)
         if thorough:   # real loopback TCP, real 6.5 s pause of the remaining direction after the first one half-closed
             cases.append({"mode": "relay", "relay": "bidir", "flow": "reqresp", "fail_end": 0, "tcp": True, "delay_ms": 6500})
     # the start race can kill the harness process (nil dereference inside a goroutine of Bridge.Start): own process
@@ -539,7 +555,7 @@ def run(ctx, only_cases=None):
             "stats_backend_stalled": 0, "final_report_parked": 0, "forget_required_while_parked": 0,
             "write_parked_at_teardown": 0, "source_reattach_histories": 0, "reattaches": 0,
             "adapter_wrapped_end": 0, "one_sided_traffic_both_ends_open": 0, "end_fails_non_eof": 0, "half_close_relay": 0,
-            "parent_context_cancelled": 0, "relay_pause_longer_than_any_deadline": 0, "permanent_timeout_failure": 0, "close_races_reattach": 0, "relay_end_without_half_close": 0, "early_eof_other_direction_live": 0}
+            "parent_context_cancelled": 0, "write_error_transient_timeout": 0, "bytes_with_error_on_adapter_end": 0, "close_during_token_wait": 0, "relay_pause_longer_than_any_deadline": 0, "permanent_timeout_failure": 0, "close_races_reattach": 0, "relay_end_without_half_close": 0, "early_eof_other_direction_live": 0}
     for c, o in zip(cases, outs):
         h = hashlib.sha256(json.dumps(c, sort_keys=True).encode()).hexdigest()
         distinct.add(h)
@@ -547,6 +563,10 @@ def run(ctx, only_cases=None):
         dist["adapter_wrapped_end"] += bool(c.get("wrap0") or c.get("wrap1"))
         dist["one_sided_traffic_both_ends_open"] += m == "free" and bool(c.get("deliver_ms")) and (not c.get("r0") or not c.get("r1"))
         dist["end_fails_non_eof"] += (m == "relay" and c.get("fail_e", 0) >= 3) or (m in ("free", "bridge", "copy") and any(r["e"] >= 3 for r in c.get("r0", []) + c.get("r1", [])))
+        dist["write_error_transient_timeout"] += any(w.get("err") and w.get("ek") == 1 for w in c.get("w0", []) + c.get("w1", []))
+        dist["bytes_with_error_on_adapter_end"] += (bool(c.get("wrap0")) and any(r["e"] >= 2 and ent_bytes(r) for r in c.get("r0", []))) or \
+            (bool(c.get("wrap1")) and any(r["e"] >= 2 and ent_bytes(r) for r in c.get("r1", [])))
+        dist["close_during_token_wait"] += bool(c.get("return_ms"))
         dist["parent_context_cancelled"] += bool(c.get("pcancel")) or (m == "bridge" and 2 in c.get("sched", [])) or any(op["op"] == "pcancel" for op in c.get("hist", []))
         dist["relay_pause_longer_than_any_deadline"] += m == "relay" and c.get("delay_ms", 0) >= 6000
         dist["permanent_timeout_failure"] += (m == "relay" and c.get("fail_e") == 4) or any(r["e"] == 4 for r in c.get("r0", []) + c.get("r1", []))
